@@ -316,6 +316,44 @@ def sel(index, rep):
         ["exclusive_countries_to_run", "countries_to_skip"] and norm_src(unp[0].value.args[0]) == "countries_list"
     rep.check(ok, rule, "caller:unpack-order", "run_model_no_trade does not unpack (inclusion list, skip list) in that order from its "
               "countries_list argument", loc=loc(RMNT, rm))
+    # the selection helper leaves the caller's list alone (a YAML file's country list is reused for every simulation of the file)
+    from .c13 import param_mutations
+    pname = [a.arg for a in fn.args.args if a.arg != "self"][0]
+    badm = param_mutations(fn, pname)
+    rep.check(not badm, rule, "selection helper does not modify the caller's list",
+              "get_countries_to_run_and_skip rewrites the list it is given (" + "; ".join(badm[:3]) + "): the next simulation that reuses the "
+              "list gets a different selection (an exclusion list turns into an inclusion list)", loc=loc(RMNT, fn))
+    # from the YAML file to the model: the list handed over is the file's own setting
+    YAMLF = "src/scenarios/run_scenarios_from_yaml.py"
+    yf = index.func(YAMLF, "run_scenarios_from_yaml")
+    calls = [c for c in walk_no_nested(yf) if isinstance(c, ast.Call) and isinstance(c.func, ast.Attribute) and c.func.attr == "run_model_no_trade"]
+    if len(calls) != 1:
+        raise AnalysisError("run_scenarios_from_yaml: the call of run_model_no_trade was not found")
+    kwv = [k.value for k in calls[0].keywords if k.arg == "countries_list"]
+    if len(kwv) != 1 or not isinstance(kwv[0], ast.Name):
+        raise AnalysisError("run_scenarios_from_yaml: countries_list is not passed as a plain variable")
+    var = kwv[0].id
+    defs = [st for st in walk_no_nested(yf) if isinstance(st, (ast.Assign, ast.AugAssign)) and any(
+        isinstance(t, ast.Name) and t.id == var for t in (st.targets if isinstance(st, ast.Assign) else [st.target]))]
+    okd = bool(defs)
+    why = []
+    for st in defs:
+        v = norm_src(st.value) if isinstance(st, ast.Assign) else None
+        if v in ("config_data['settings']['countries']", "[]", f"[{var}]", f"list({var})"):
+            continue
+        val = st.value if isinstance(st, ast.Assign) else None
+        if isinstance(val, ast.ListComp) and len(val.generators) == 1 and not val.generators[0].ifs and norm_src(val.generators[0].iter) == var \
+                and isinstance(val.generators[0].target, ast.Name):
+            e, c = val.elt, val.generators[0].target.id
+            # one element per element, only whitespace/case normalisation
+            if norm_src(e) in (c, f"{c}.strip()", f"{c}.upper()", f"{c}.strip().upper()", f"{c}.upper().strip()", f"str({c})"):
+                continue
+        okd = False
+        why.append(f"line {st.lineno}: {norm_src(st)[:70]}")
+    muts = param_mutations(yf, var)
+    rep.check(okd and not muts, rule, "yaml -> model: the country list is the file's own setting",
+              "the country selection is altered between the YAML settings and run_model_no_trade (" + "; ".join(why + muts[:2]) + "): entries can "
+              "be dropped or rewritten, and an emptied list means 'run all countries'", loc=loc(YAMLF, yf))
     if n_cases < 15:
         raise AnalysisError(f"selection enumeration produced only {n_cases} cases")
     rep.require_min(rule, 15)
